@@ -114,6 +114,7 @@ type BR struct {
 	ctxErr                 error
 	// stop / cancel bookkeeping
 	failedBy         core.Cell[int] // thread id+1 of the worker whose item failed terminally (first)
+	failedWorkers    map[int]bool   // threads whose own item failed terminally (only touched by that thread)
 	phase            core.Cell[int] // 0 none, 1 failure returned, 2 failure handled (quiesced)
 	cancelled        core.Cell[int] // thread id+1 of the canceller
 	afterCancel      map[int]int    // exec entries per thread after the cancellation (main-thread reads after run)
@@ -555,7 +556,7 @@ func (b *BR) onExec(ctx context.Context, v any, argIsErr bool) answer {
 		if fbid := b.failedBy.Get(); fbid != 0 {
 			if b.c <= 1 {
 				core.Problem("stop-on-error: item %d attempt %d executed after an item had already failed (concurrency %d)", i, k, b.c)
-			} else if fbid == tid+1 {
+			} else if fbid == tid+1 || b.failedWorkers[tid] {
 				core.Problem("stop-on-error: worker T%d started item %d after the item it processed had failed", tid, i)
 			} else if b.phase.Get() == 2 && k == 0 {
 				core.Problem("stop-on-error: item %d was started after the failure had been handled (only already picked-up items may run)", i)
@@ -626,9 +627,16 @@ func (b *BR) onExec(ctx context.Context, v any, argIsErr bool) answer {
 		st.settled = true
 	}
 	// terminal failure of this item?
-	if b.stop && b.failedBy.Get() == 0 && b.terminalFailure(i, a) && !sc.fb {
-		b.failedBy.Set(tid + 1)
-		b.phase.Set(1)
+	if b.stop && b.terminalFailure(i, a) && !sc.fb {
+		// EVERY worker whose item failed for good has observed a failure (not only the first)
+		if b.failedWorkers == nil {
+			b.failedWorkers = map[int]bool{}
+		}
+		b.failedWorkers[tid] = true
+		if b.failedBy.Get() == 0 {
+			b.failedBy.Set(tid + 1)
+			b.phase.Set(1)
+		}
 	}
 	return a
 }
